@@ -78,6 +78,7 @@ message_type {
   name: "Blob"
   field { name: "filename" number: 1 type: TYPE_STRING label: LABEL_OPTIONAL json_name: "filename" }
   field { name: "file"     number: 2 type: TYPE_MESSAGE label: LABEL_OPTIONAL type_name: ".google.api.HttpBody" json_name: "file" }
+  field { name: "note"     number: 3 type: TYPE_STRING label: LABEL_OPTIONAL json_name: "note" }
 }
 enum_type {
   name: "Kind"
